@@ -1,5 +1,6 @@
 (* Byte strings as lists of N, conversions from Coq string literals. *)
 From Coq Require Import List NArith Bool Ascii String.
+Export String.StringSyntax.
 Import ListNotations.
 Open Scope N_scope.
 
@@ -10,7 +11,8 @@ Fixpoint bytes_of_string (s : string) : bytes :=
   | EmptyString => []
   | String a s' => N_of_ascii a :: bytes_of_string s'
   end.
-Notation "'B' s" := (bytes_of_string s%string) (at level 0, s at level 0, only parsing).
+Arguments bytes_of_string _%string.
+Notation "'B' s" := (bytes_of_string s) (at level 0, s at level 0, only parsing).
 
 Fixpoint beqb (a b : bytes) : bool :=
   match a, b with
